@@ -94,7 +94,7 @@ def step (w : World) (s : CS) : Op → CS × Option (Except Err Html)
   | .stop => (if s.cleaner then { s with cleaner := false, cancelled := s.cancelled + 1 } else s, none)
   | .setTTL d =>
     (if s.ttlDone then s
-     else { s with ttl := d, interval := if s.interval = s.ttl.tdiv 2 then d.tdiv 2 else s.interval, ttlDone := true }, none)
+     else { s with ttl := d, interval := if s.intDone then s.interval else d.tdiv 2, ttlDone := true }, none)
   | .setInterval d => (if s.intDone then s else { s with interval := d, intDone := true }, none)
 
 structure CInv (w : World) (s : CS) : Prop where
